@@ -93,6 +93,7 @@ class Interp:
         self.out = []
         self.printed = False
         self.vars = {}
+        self.locals = []      # named parameters of the named functions being executed (innermost last)
         self.ghost = 0
         self.funcs = {}
         self.steps = 0
@@ -440,8 +441,15 @@ class Interp:
         return int(str(a) + str(b))
 
     # -- structures --------------------------------------------------------------------
+    def _no_closure(self):
+        """Function values made while a named parameter is in scope could read it later, after the call has
+        returned (a Python closure); that is not modelled."""
+        if any(self.locals):
+            raise Unmodelled("function value created while named parameters are in scope")
+
     def wrap_operand(self, node):
         """lambda_wrap: how a modifier sees its operand."""
+        self._no_closure()
         k = node[0]
         if k == "el":
             if node[1] not in ELEMENT_ARITY:
@@ -473,9 +481,14 @@ class Interp:
             if node[1] == "":
                 stack.append(self.copy(self.ghost))
             else:
-                if node[1] not in self.vars:
-                    raise RefError("variable read before assignment")
-                stack.append(self.copy(self.vars[node[1]]))
+                for loc in reversed(self.locals):
+                    if node[1] in loc:
+                        stack.append(self.copy(loc[node[1]]))
+                        break
+                else:
+                    if node[1] not in self.vars:
+                        raise RefError("variable read before assignment")
+                    stack.append(self.copy(self.vars[node[1]]))
         elif k == "set":
             if pure:
                 raise Unmodelled("variable write inside a function-like body")
@@ -536,8 +549,10 @@ class Interp:
                 finally:
                     self.context.pop()
         elif k == "lam":
+            self._no_closure()
             stack.append(Fn(1 if node[1] is None else node[1], node[2]))
         elif k in ("map", "flt", "srt"):
+            self._no_closure()
             stack.append(Fn(1, node[1]))
             self.element({"map": "M", "flt": "F", "srt": "ṡ"}[k], stack, pure)
         elif k == "list":
@@ -561,18 +576,26 @@ class Interp:
                 raise RefError("call of an undefined function")
             params, body = self.funcs[node[1]]
             fstack = []
+            local = {}
+            # parameters are bound in declaration order: a count takes that many entries for the function's
+            # stack, a name takes one entry into a variable of that call (transpile.py FunctionDef template)
             for p in params:
-                if not p.isdigit():
-                    raise Unmodelled("named / variadic parameter")
-                fstack += self.popn(stack, int(p))
+                if p.isdigit():
+                    fstack += self.popn(stack, int(p))
+                elif p.isascii() and p.isidentifier():
+                    local[p] = self.pop(stack)
+                else:
+                    raise Unmodelled("variadic / unusual parameter")
             self.exec_depth += 1
             if self.exec_depth > 40:
                 raise StepLimit()
             self.context.append(list(fstack))
             self.inputs.append([list(fstack)[::-1], 0])
+            self.locals.append(local)
             try:
                 self.run_seq(body, fstack, "fn")
             finally:
+                self.locals.pop()
                 self.context.pop()
                 self.inputs.pop()
                 self.exec_depth -= 1
